@@ -54,6 +54,7 @@ EXPECTED_PROBES = [
     "read_only_refused",
     "initial_load_origin_from_text",
     "retry_after_failed_commit_refused",
+    "plain_zone_holds_an_empty_node",
 ]
 
 
@@ -100,6 +101,7 @@ def gen_case(seed, tier):
         "base_exc_parity": rng.choice([0, 1]),
         "load_text_no_origin": rng.random() < 0.12,
         "btree_t": rng.choice([3, 3, 4, 127]),
+        "empty_node": rng.choice([n for n in names if n != "@"] or ["a"]) if rng.random() < 0.25 else None,
     }
 
 
@@ -250,9 +252,17 @@ def _read_only_refuses(ctx, b, r):
     ctx.res.probes.inc("read_only_refused")
 
 
-def _zone_equals(ctx, b, want, what, cls):
-    """Zone content through every public view equals `want` (a model snapshot)."""
+def _zone_equals(ctx, b, want, what, cls, names=None):
+    """Zone content through every public view equals `want` (a model snapshot); `names` is the set
+    of owner names the model holds (a name may exist without any rdataset in a plain zone)."""
+    if names is not None:
+        got_names = frozenset(b.to_abs(n) for n in b.zone.nodes.keys())
+        if got_names != frozenset(names):
+            extra = sorted(str(n) for n in got_names - frozenset(names))
+            missing = sorted(str(n) for n in frozenset(names) - got_names)
+            raise Violation(cls, f"[{b.kind}/{'rel' if b.relativize else 'abs'}] {what}: the zone's owner names differ from the model: unexpected {extra}, missing {missing}")
     Z.compare(cls, b, b.snap_nodes(), want, what + " (zone.nodes)")
+    Z.compare(cls, b, b.snap_zone_api(), want, what + " (zone.iterate_rdatasets)")
     with b.zone.reader() as r:
         Z.compare(cls, b, b.snap_txn(r), want, what + " (fresh reader)")
 
@@ -291,6 +301,7 @@ def _run_write_txn(ctx, b, m, t, abort_at=None, hook=None, final=True, base_exc=
     res = ctx.res
     z = b.zone
     pre = m.snapshot()
+    pre_names = frozenset(m.content.keys())
     pre_ident = _identity_snapshot(b)
     pre_versions = _versions_state(b)
     work = m.copy()
@@ -331,7 +342,7 @@ def _run_write_txn(ctx, b, m, t, abort_at=None, hook=None, final=True, base_exc=
                         res.state(Z.stable_hash(work.snapshot()))
                 elif final:
                     res.probes.inc("legit_error_then_continue")
-                if work.snapshot() != (pre if t["kind"] != "repl" else frozenset()):
+                if work.snapshot() != (pre if t["kind"] != "repl" else frozenset()) or frozenset(work.content.keys()) != (pre_names if t["kind"] != "repl" else frozenset()):
                     changed_any = True
                 ch = txn.changed()
                 if changed_any and not ch:
@@ -339,6 +350,9 @@ def _run_write_txn(ctx, b, m, t, abort_at=None, hook=None, final=True, base_exc=
                 if not mutated_ok and ch:
                     raise Violation("C10:changed-flag", f"[{b.kind}] changed() is True although no operation succeeded")
                 # reads inside the transaction see its own writes (spot checks through get/name_exists)
+                got_names = frozenset(b.to_abs(x) for x in txn.iterate_names())
+                if got_names != frozenset(work.content.keys()):
+                    raise Violation("C10:own-writes", f"[{b.kind}] iterate_names() differs from the model after {Z.describe(op)}: unexpected {sorted(str(x) for x in got_names - frozenset(work.content.keys()))}, missing {sorted(str(x) for x in frozenset(work.content.keys()) - got_names)}")
                 nm = b.absname(op.get("n", "@"))
                 if nm is not None:
                     narg = b.name_arg(op.get("n", "@"), op.get("nf", "rel"))
@@ -362,7 +376,7 @@ def _run_write_txn(ctx, b, m, t, abort_at=None, hook=None, final=True, base_exc=
                             if rds is None or rds.ttl != want[0] or set(b.rid(r) for r in rds) != want[1]:
                                 raise Violation("C10:own-writes", f"[{b.kind}] get({op.get('n')}, {rdt}, {cov}) disagrees with the model after {Z.describe(op)}")
                     gn = txn.get_node(nobj)
-                    if (gn is None) != (not node_model):
+                    if (gn is None) != (nm not in work.content):
                         raise Violation("C10:own-writes", f"[{b.kind}] get_node({op.get('n')}) is {'None' if gn is None else 'a node'} but the model has {len(node_model)} rdatasets there after {Z.describe(op)}")
                     if gn is not None and len(gn.rdatasets) != len(node_model):
                         raise Violation("C10:own-writes", f"[{b.kind}] get_node({op.get('n')}) holds {len(gn.rdatasets)} rdatasets, model {len(node_model)}")
@@ -420,18 +434,27 @@ def _run_write_txn(ctx, b, m, t, abort_at=None, hook=None, final=True, base_exc=
         if str(e) == "hook":
             res.faults.inc("hook_exception_inside_op")
             res.probes.inc("hook_raised_mid_operation")
+    except Violation:
+        raise
+    except Exception as e:  # noqa: BLE001
+        v = Z.first_violation_in_context(e)
+        if v is not None:
+            raise v
+        if Z.raised_in_repo(e):
+            raise Violation("C10:unexpected-exception", f"[{b.kind}/{'rel' if b.relativize else 'abs'}] leaving the transaction raised {type(e).__name__}: {e} (txn kind={t['kind']} end={t['end']} abort_at={abort_at} commit_fault={commit_fault})")
+        raise
     tag = f"txn kind={t['kind']} end={t['end']} abort_at={abort_at} hook={hook}"
     # the client goes on using (mutating) the rdataset/rrset objects it passed in
     res.faults.inc("client_scribbles_on_passed_in_objects", b.scribble_on_handed_in())
     if not txn._ended:
         raise Violation("C10:not-ended", f"[{b.kind}] transaction not ended after leaving the with block: {tag}")
     if committed:
-        _zone_equals(ctx, b, work.snapshot(), "after commit: " + tag, "C10:commit-mismatch")
+        _zone_equals(ctx, b, work.snapshot(), "after commit: " + tag, "C10:commit-mismatch", names=work.content.keys())
         if final and work.snapshot() == pre:
             res.probes.inc("commit_without_change")
         result = work
     else:
-        _zone_equals(ctx, b, pre, "after rollback/exception: " + tag, "C10:rollback-leak")
+        _zone_equals(ctx, b, pre, "after rollback/exception: " + tag, "C10:rollback-leak", names=pre_names)
         ident = _identity_snapshot(b)
         if ident != pre_ident:
             raise Violation("C10:rollback-leak", f"[{b.kind}] node objects of the zone were replaced by an aborted transaction: {tag}")
@@ -476,7 +499,15 @@ def _run_config(ctx, case, kind, relativize):
     else:
         b = Z.Bench(kind, relativize)
         m = Z.load_bench(b, case["base"], replacement=case.get("load_replacement", True))
-    _zone_equals(ctx, b, m.snapshot(), "after initial load", "C10:commit-mismatch")
+    if kind == "plain" and case.get("empty_node"):
+        # a plain zone may hold a node without rdatasets (made through its non-transaction API);
+        # transactions then see a name that exists and holds nothing
+        spec = case["empty_node"]
+        b.zone.find_node(b.name_arg(spec, "rel" if relativize else "abs"), create=True)
+        if b.absname(spec) not in m.content:
+            m.content[b.absname(spec)] = {}
+            ctx.res.probes.inc("plain_zone_holds_an_empty_node")
+    _zone_equals(ctx, b, m.snapshot(), "after initial load", "C10:commit-mismatch", names=m.content.keys())
     for ti, t in enumerate(case["txns"]):
         if t["kind"] == "r":
             _run_read_txn(ctx, b, m, t)
@@ -552,6 +583,10 @@ def shrink(case):
             if n.get("aborts", "all") != "all":
                 n["aborts"] = [[a - (a > i), k] for a, k in n["aborts"] if a != i]
             yield n
+    if case.get("empty_node"):
+        n = copy.deepcopy(case)
+        n["empty_node"] = None
+        yield n
     if case.get("aborts", "all") == "all":
         n = copy.deepcopy(case)
         n["aborts"] = []
